@@ -126,6 +126,18 @@ func vDetRun(scenario int, order uint32) *vDigest {
 				W.e[i].alive = false
 			}
 		}
+	case 8: // observers whose callbacks create entities; one is unregistered: dispatch order of the rest
+		var obs [4]*Observer
+		for k := 0; k < 4; k++ {
+			k := k
+			obs[k] = Observe(OnSetComponents).Do(func(e Entity) {
+				d.add(uint64(k))
+			}).Register(W.w)
+		}
+		obs[1].Unregister(W.w)
+		NewMap1[vPos](W.w).Set(firstParent, &vPos{1, 2})
+		obs[0].Unregister(W.w)
+		NewMap1[vPos](W.w).Set(firstParent, &vPos{3, 4})
 	case 3:
 		W.removeEntity(0)
 		W.w.Shrink()
@@ -165,3 +177,4 @@ func VerifC12_SharedTargetDeath()      { vDeterminism(4) }
 func VerifC12_SuccessiveTargetDeaths() { vDeterminism(5) }
 func VerifC12_BatchRemovalAndReuse()   { vDeterminism(6) }
 func VerifC12_RegisteredFilterOrder()  { vDeterminism(7) }
+func VerifC12_ObserverDispatchOrder()  { vDeterminism(8) }
